@@ -49,7 +49,7 @@ def build_zoo(wntr, demand_model):
     # head pumps: 1-point (C = 2), 2-point (C = 1), 3-point concave (C > 1) and convex (C < 1), closed, out of the tank
     wn.add_curve("C1", "HEAD", [(0.05, 30.0)])
     wn.add_curve("C2", "HEAD", [(0.0, 40.0), (0.1, 20.0)])
-    wn.add_curve("C3", "HEAD", [(0.0, 40.0), (0.05, 35.0), (0.1, 20.0)])
+    wn.add_curve("C3", "HEAD", [(0.0, 40.0), (0.05, 36.0), (0.1, 20.0)])
     wn.add_curve("C3b", "HEAD", [(0.0, 40.0), (0.05, 30.0), (0.1, 24.0)])
     wn.add_pump("PU1", "R1", "J5", "HEAD", "C1")
     wn.add_pump("PU2", "R1", "J5", "HEAD", "C2")
